@@ -177,20 +177,29 @@ Qed.
 
 Lemma close_last fo i a st top stk : lin_ok fo i = true -> l_close i = Some a ->
   s_branch_anchor st = rev (top :: stk) ->
-  exists st1, close_branch (lin_tail_str i) st = Ok st1 /\ s_g st1 = s_g st /\ s_cycle st1 = s_cycle st.
+  exists st1, close_all (lin_tail_str i) st = Ok st1 /\ s_g st1 = s_g st /\ s_cycle st1 = s_cycle st.
 Proof.
   intros Hok Hc Hba. pose proof (lin_prefix_inner fo i Hok) as Hp.
   assert (E : lin_tail_str i = lin_prefix i ++ close_str (l_close i)) by (unfold lin_tail_str, lin_prefix; now rewrite <- !app_assoc).
-  unfold close_branch. rewrite Hba, rev_involutive. rewrite E, Hc. cbn [close_str].
-  rewrite fnc0_spec, (find_idx_inner _ fnc_eon_a Hp incl_eon_a). cbn [find_idx].
-  change (str_in [")"%char] fnc_eon_a) with true. cbv iota. rewrite Nat.add_0_r. cbn [bind].
-  rewrite !nth_error_after.
-  destruct a as [s|]; cbn [osym_str nth_error].
-  - assert (E1 : ch_eq (Some (sym_char s)) "|"%char = false) by (destruct s; reflexivity).
-    rewrite E1. cbn [ch_eq orb]. rewrite sym_mem, sym_lookup. cbn [bind]. eexists. split; [reflexivity|]. split; reflexivity.
-  - cbn [ch_eq orb bind]. eexists. split; [reflexivity|]. split; reflexivity.
+  unfold close_all. rewrite close_loop_0.
+  destruct (look_last fo i Hok) as (io & ic & -> & -> & Elt). cbn [bind]. rewrite Elt, Hc. cbn [is_some].
+  assert (Ecb : exists st1, close_branch (lin_tail_str i) 0 st = Ok (st1, Datatypes.S (length (lin_prefix i)))
+                            /\ s_g st1 = s_g st /\ s_cycle st1 = s_cycle st).
+  { unfold close_branch. rewrite Hba, rev_involutive. rewrite E, Hc. cbn [close_str].
+    change (fnc_from ?r ?c 0) with (fnc0 r c).
+    rewrite fnc0_spec, (find_idx_inner _ fnc_eon_a Hp incl_eon_a). cbn [find_idx].
+    change (str_in [")"%char] fnc_eon_a) with true. cbv iota. rewrite Nat.add_0_r. cbn [bind].
+    rewrite !nth_error_after. rewrite Nat.add_1_r.
+    destruct a as [s|]; cbn [osym_str nth_error].
+    - assert (E1 : ch_eq (Some (sym_char s)) "|"%char = false) by (destruct s; reflexivity).
+      rewrite E1. cbn [ch_eq orb andb]. rewrite sym_mem, sym_lookup. cbn [bind]. eexists. split; [reflexivity|]. split; reflexivity.
+    - cbn [ch_eq orb andb bind]. eexists. split; [reflexivity|]. split; reflexivity. }
+  destruct Ecb as (st1 & -> & G1 & C1). cbn [bind]. exists st1. split; [|split; assumption].
+  assert (El : length (lin_tail_str i) = Datatypes.S (length (lin_prefix i) + length (osym_str a))).
+  { rewrite E, Hc. cbn [close_str]. rewrite app_length. cbn [length]. lia. }
+  rewrite El. apply close_loop_stop; [rewrite El; lia|].
+  rewrite E, Hc. cbn [close_str]. rewrite skipn_after. destruct a as [s|]; [destruct s|]; reflexivity.
 Qed.
-
 
 (** one iteration on the LAST item of a text without braces: graph and ring table agree with the machine *)
 Lemma node_step_last fo i st x pc :
@@ -243,12 +252,12 @@ Proof.
   destruct (m_copies_prev (mult_val (l_mult i)) a (m_g x) (m_next x) (m_prev x) (m_pend x) Hn1) as (g2 & nx & last & -> & _).
   pose proof (f_equal snd Sr) as Eces. cbn [snd] in Eces. pose proof (f_equal fst Sr) as Ecyc. cbn [fst] in Ecyc.
   rewrite Eces. destruct (add_cycle_edges g2 _) as [g3|e]; cbn [bind]; [|reflexivity].
-  destruct (look_last fo i Hok) as (io & ic & Eio & Eic & Elt). rewrite Eio. cbn [bind]. rewrite Eic. cbn [bind]. rewrite Elt.
-  destruct (l_close i) as [a'|] eqn:Ecl; cbn [is_some].
+  destruct (l_close i) as [a'|] eqn:Ecl.
   - destruct stack0 as [|top stk] eqn:Es; [exfalso; apply Hst; [discriminate|exact Es]|].
-    match goal with |- exists st1, close_branch _ ?S = _ /\ _ => destruct (close_last fo i a' S top stk Hok Ecl eq_refl) as (st1 & E1 & G1 & C1) end.
+    match goal with |- exists st1, close_all _ ?S = _ /\ _ => destruct (close_last fo i a' S top stk Hok Ecl eq_refl) as (st1 & E1 & G1 & C1) end.
     exists st1. split; [exact E1|]. rewrite G1, C1. cbn. split; [reflexivity|assumption].
-  - eexists. split; [reflexivity|]. cbn. split; [reflexivity|assumption].
+  - destruct (look_last fo i Hok) as (io & ic & Eio & Eic & Elt). rewrite Ecl in Elt.
+    rewrite (close_all_stop _ _ io ic Eio Eic Elt). eexists. split; [reflexivity|]. cbn. split; [reflexivity|assumption].
 Qed.
 
 Lemma cont_lins_ne j t : cont (lins_str (j :: t)).
